@@ -1,4 +1,520 @@
 import YncaVerif.Lemmas.L4Defs
 /-! Helper lemmas for C12. -/
-namespace Ynca.L4
-end Ynca.L4
+namespace Ynca.L4.C12L
+
+/-! ## `setUpc` only touches the caller programs -/
+section setUpc
+variable (s : St) (t : Tid) (p : UPc)
+@[simp] theorem setUpc_now : (setUpc s t p).now = s.now := by unfold setUpc; split <;> rfl
+@[simp] theorem setUpc_wire : (setUpc s t p).wire = s.wire := by unfold setUpc; split <;> rfl
+@[simp] theorem setUpc_spc : (setUpc s t p).spc = s.spc := by unfold setUpc; split <;> rfl
+@[simp] theorem setUpc_rpc : (setUpc s t p).rpc = s.rpc := by unfold setUpc; split <;> rfl
+@[simp] theorem setUpc_queue : (setUpc s t p).queue = s.queue := by unfold setUpc; split <;> rfl
+@[simp] theorem setUpc_lock : (setUpc s t p).lock = s.lock := by unfold setUpc; split <;> rfl
+@[simp] theorem setUpc_closeStarted : (setUpc s t p).closeStarted = s.closeStarted := by unfold setUpc; split <;> rfl
+@[simp] theorem setUpc_portOpen : (setUpc s t p).portOpen = s.portOpen := by unfold setUpc; split <;> rfl
+@[simp] theorem setUpc_writeFault : (setUpc s t p).writeFault = s.writeFault := by unfold setUpc; split <;> rfl
+@[simp] theorem setUpc_madeAt : (setUpc s t p).madeAt = s.madeAt := by unfold setUpc; split <;> rfl
+@[simp] theorem setUpc_connMade : (setUpc s t p).connMade = s.connMade := by unfold setUpc; split <;> rfl
+@[simp] theorem setUpc_published : (setUpc s t p).published = s.published := by unfold setUpc; split <;> rfl
+@[simp] theorem setUpc_queueMade : (setUpc s t p).queueMade = s.queueMade := by unfold setUpc; split <;> rfl
+end setUpc
+
+theorem find?_filter_ne (cs : List (Tid × UPc)) (t t' : Tid) (h : t' ≠ t) :
+    (cs.filter (·.1 != t)).find? (·.1 == t') = cs.find? (·.1 == t') := by
+  induction cs with
+  | nil => rfl
+  | cons a cs ih =>
+    by_cases ha : a.1 = t'
+    · simp [ha, h]
+    · by_cases hb : a.1 = t
+      · simp [hb, ih, Ne.symm h]
+      · simp [hb, ih, ha]
+
+theorem lookup_setPc (cs : List (Tid × UPc)) (t t' : Tid) (p : UPc) :
+    lookup (setPc cs t p) t' = if t' = t then p else lookup cs t' := by
+  unfold lookup setPc
+  by_cases h : t' = t
+  · subst h; simp
+  · have h' : (t == t') = false := by simp; exact fun e => h e.symm
+    simp only [List.find?_cons, h', h, ↓reduceIte, find?_filter_ne cs t t' h]
+
+theorem upcOf_setUpc (s : St) (t t' : Tid) (p : UPc) :
+    upcOf (setUpc s t p) t' = if t' = t then p else upcOf s t' := by
+  unfold upcOf setUpc
+  by_cases ht : t = tidR
+  · subst ht; by_cases h : t' = tidR <;> simp [h]
+  · by_cases h : t' = tidR
+    · subst h; have : ¬ tidR = t := fun e => ht e.symm
+      simp [ht, this]
+    · simp [ht, h, lookup_setPc]
+
+/-! ## case analysis of one step -/
+
+syntax "l4_split_s " ident : tactic
+set_option hygiene false in
+macro_rules | `(tactic| l4_split_s $hs:ident) => `(tactic|
+  (unfold stepS at $hs:ident
+   split at $hs:ident <;> (try split at $hs:ident) <;> (try split at $hs:ident) <;> simp at $hs:ident <;>
+     obtain ⟨rfl, rfl⟩ := $hs:ident))
+
+syntax "l4_split_r " ident : tactic
+set_option hygiene false in
+macro_rules | `(tactic| l4_split_r $hs:ident) => `(tactic|
+  (unfold stepR at $hs:ident
+   split at $hs:ident <;> (try split at $hs:ident) <;> (try split at $hs:ident) <;> simp at $hs:ident <;>
+     obtain ⟨rfl, rfl⟩ := $hs:ident))
+
+syntax "l4_split_u " ident : tactic
+set_option hygiene false in
+macro_rules | `(tactic| l4_split_u $hs:ident) => `(tactic|
+  (unfold stepU at $hs:ident
+   split at $hs:ident <;> (try unfold stepClose at $hs:ident) <;> (try split at $hs:ident) <;>
+     (try split at $hs:ident) <;> simp at $hs:ident <;> obtain ⟨rfl, rfl⟩ := $hs:ident))
+
+/-- the remaining labels (everything except `s`, `r`, `u`) -/
+syntax "l4_split_other " ident : tactic
+set_option hygiene false in
+macro_rules | `(tactic| l4_split_other $hs:ident) => `(tactic|
+  ((repeat' (split at $hs:ident)) <;> simp at $hs:ident <;> (try (obtain ⟨rfl, rfl⟩ := $hs:ident))))
+
+/-! ## structural invariants -/
+
+/-- the sender is created by `connection_made` (exactly once); nothing is written before -/
+def I1 (s : St) : Prop :=
+  ((s.rpc = .notStarted ∨ s.rpc = .made 0) → s.spc = .notStarted) ∧ (s.spc = .notStarted → s.wire = [])
+
+theorem I1_step (P : Params) (s s' : St) (l : Label) (o : Option Obs) (hi : I1 s)
+    (hs : step P s l = some (s', o)) : I1 s' := by
+  unfold I1 at *
+  cases l <;> simp only [step] at hs
+  case s => l4_split_s hs <;> simp_all [enqueue]
+  case r => l4_split_r hs <;> simp_all [enqueue]
+  case u t => l4_split_u hs <;> simp_all
+  all_goals l4_split_other hs <;> simp_all
+
+theorem I1_inv (P : Params) (s : St) (h : Reachable P s) : I1 s :=
+  reachable_induction P I1 (by simp [I1]) (fun s s' l o hi hs => I1_step P s s' l o hi hs) s h
+
+/-- a thread that is inside `close()` past its first step -/
+def closingPast : UPc → Bool
+  | .closing pc => decide (pc ≠ .c0)
+  | .idle => false
+  | .submitting _ => false
+  | .returning => false
+
+@[simp] theorem closingPast_closing (pc : CPc) : closingPast (.closing pc) = decide (pc ≠ .c0) := rfl
+@[simp] theorem closingPast_idle : closingPast .idle = false := rfl
+@[simp] theorem closingPast_submitting (x : String) : closingPast (.submitting x) = false := rfl
+@[simp] theorem closingPast_returning : closingPast .returning = false := rfl
+
+theorem closingPast_upcOf_setUpc (s : St) (t t' : Tid) (p : UPc) :
+    closingPast (upcOf (setUpc s t p) t') = if t' = t then closingPast p else closingPast (upcOf s t') := by
+  rw [upcOf_setUpc]; split <;> rfl
+
+/-- while no `close()` has cleared the disconnect callback, no thread is further inside `close()` -/
+def I2 (s : St) : Prop := s.closeStarted = false → ∀ t, closingPast (upcOf s t) = false
+
+theorem I2_step (P : Params) (s s' : St) (l : Label) (o : Option Obs) (hi : I2 s)
+    (hs : step P s l = some (s', o)) : I2 s' := by
+  unfold I2 at *
+  cases l <;> simp only [step] at hs
+  case s => l4_split_s hs <;> simp_all [enqueue, upcOf]
+  case r => l4_split_r hs <;> simp_all [enqueue, upcOf]
+  case u t =>
+    by_cases hc : s.closeStarted = false
+    · have hpast : ∀ pc, upcOf s t = .closing pc → pc = .c0 := by
+        intro pc h; have := hi hc t; rw [h] at this; simpa using this
+      l4_split_u hs <;> (try simp only [closingPast_upcOf_setUpc] at *) <;> simp_all [upcOf]
+    · l4_split_u hs <;> simp_all
+  all_goals l4_split_other hs <;> (try simp only [closingPast_upcOf_setUpc] at *) <;> simp_all [upcOf]
+
+theorem I2_inv (P : Params) (s : St) (h : Reachable P s) : I2 s :=
+  reachable_induction P I2 (by simp [I2, upcOf, lookup, closingPast]) (fun s s' l o hi hs => I2_step P s s' l o hi hs) s h
+
+theorem I2_c0 {s : St} (hi : I2 s) (hc : s.closeStarted = false) (t : Tid) :
+    ∀ pc, upcOf s t = .closing pc → pc = .c0 := by
+  intro pc h; have := hi hc t; rw [h] at this; simpa using this
+
+/-- the sender holds the transport lock exactly while writing -/
+def holdsLock : SPc → Bool
+  | .writing _ _ => true
+  | .unlock => true
+  | _ => false
+
+@[simp] theorem holdsLock_notStarted : holdsLock .notStarted = false := rfl
+@[simp] theorem holdsLock_waitGet (d : Nat) : holdsLock (.waitGet d) = false := rfl
+@[simp] theorem holdsLock_timedOut : holdsLock .timedOut = false := rfl
+@[simp] theorem holdsLock_got (m : Item) : holdsLock (.got m) = false := rfl
+@[simp] theorem holdsLock_logging (t : String) (i : Option Nat) : holdsLock (.logging t i) = false := rfl
+@[simp] theorem holdsLock_lockWait (t : String) (i : Option Nat) : holdsLock (.lockWait t i) = false := rfl
+@[simp] theorem holdsLock_writing (t : String) (i : Option Nat) : holdsLock (.writing t i) = true := rfl
+@[simp] theorem holdsLock_unlock : holdsLock .unlock = true := rfl
+@[simp] theorem holdsLock_sleeping (u : Nat) : holdsLock (.sleeping u) = false := rfl
+@[simp] theorem holdsLock_done : holdsLock .done = false := rfl
+@[simp] theorem holdsLock_dead : holdsLock .dead = false := rfl
+
+/-- while no `close()` has begun, only the sender takes the transport lock -/
+def I3 (s : St) : Prop := s.closeStarted = false → s.lock = if holdsLock s.spc then some tidS else none
+
+theorem I3_step (P : Params) (s s' : St) (l : Label) (o : Option Obs) (h1 : I1 s) (h2 : I2 s) (hi : I3 s)
+    (hs : step P s l = some (s', o)) : I3 s' := by
+  unfold I3 at *
+  unfold I1 at h1
+  cases l <;> simp only [step] at hs
+  case s => l4_split_s hs <;> simp_all [enqueue]
+  case r => l4_split_r hs <;> simp_all [enqueue]
+  case u t =>
+    by_cases hc : s.closeStarted = false
+    · have hpast := I2_c0 h2 hc t
+      l4_split_u hs <;> simp_all
+    · l4_split_u hs <;> simp_all
+  all_goals l4_split_other hs <;> simp_all
+
+/-! ## the gap invariant -/
+
+@[simp] theorem lossBegun_notStarted : lossBegun .notStarted = false := rfl
+@[simp] theorem lossBegun_made (k : Nat) : lossBegun (.made k) = false := rfl
+@[simp] theorem lossBegun_setEvent : lossBegun .setEvent = false := rfl
+@[simp] theorem lossBegun_loopTest : lossBegun .loopTest = false := rfl
+@[simp] theorem lossBegun_reading (n : Nat) (d : Option Nat) : lossBegun (.reading n d) = false := rfl
+@[simp] theorem lossBegun_split : lossBegun .split = false := rfl
+@[simp] theorem lossBegun_line0 (l : String) : lossBegun (.line0 l) = false := rfl
+@[simp] theorem lossBegun_line1 (l : String) : lossBegun (.line1 l) = false := rfl
+@[simp] theorem lossBegun_line2 (l : String) (b : Bool) : lossBegun (.line2 l b) = false := rfl
+@[simp] theorem lossBegun_deliver (l : String) (td : List Nat) : lossBegun (.deliver l td) = false := rfl
+@[simp] theorem lossBegun_inCb (l : String) (cb : Nat) (td : List Nat) : lossBegun (.inCb l cb td) = false := rfl
+@[simp] theorem lossBegun_lost (k : Nat) : lossBegun (.lost k) = true := rfl
+@[simp] theorem lossBegun_lostJoin (d : Nat) : lossBegun (.lostJoin d) = true := rfl
+@[simp] theorem lossBegun_inDiscCb : lossBegun .inDiscCb = true := rfl
+@[simp] theorem lossBegun_done : lossBegun .done = true := rfl
+
+/-- the part of "up" that can only be lost, never regained -/
+def Good (s : St) : Prop :=
+  lossBegun s.rpc = false ∧ s.closeStarted = false ∧ s.writeFault = false ∧ s.portOpen = true
+
+theorem Good_back (P : Params) (s s' : St) (l : Label) (o : Option Obs)
+    (hs : step P s l = some (s', o)) (hg : Good s') : Good s := by
+  unfold Good at *
+  cases l <;> simp only [step] at hs
+  case s => l4_split_s hs <;> simp_all [enqueue]
+  case r => l4_split_r hs <;> simp_all [enqueue]
+  case u t => l4_split_u hs <;> simp_all
+  all_goals l4_split_other hs <;> simp_all
+
+theorem tick_elim (P : Params) (s s' : St) (d : Nat) (o : Option Obs)
+    (hs : step P s (.tick d) = some (s', o)) :
+    s' = { s with now := s.now + d } ∧ stepS P s = none ∧
+      ∀ dl ∈ deadlines s, s.now + d ≤ dl ∨ dl ≤ s.now := by
+  simp only [step] at hs
+  split at hs
+  · simp at hs
+  · rename_i h
+    split at hs
+    · rename_i hd
+      simp at hs
+      refine ⟨hs.1.symm, ?_, ?_⟩
+      · have : canMove P s = false := by simpa using (not_or.mp h).2
+        unfold canMove at this
+        simp only [Bool.or_eq_false_iff] at this
+        simpa using this.1.1.1.1.1
+      · intro dl hdl
+        have := List.all_eq_true.mp hd dl hdl
+        simpa using this
+    · simp at hs
+
+/-- what a disabled sender looks like -/
+theorem stepS_none (P : Params) (s : St) (h : stepS P s = none) :
+    match s.spc with
+    | .waitGet dl => s.queue = [] ∧ s.now < dl
+    | .sleeping u => s.now < u
+    | .lockWait _ _ => s.lock ≠ none
+    | .notStarted => True
+    | .done => True
+    | .dead => True
+    | _ => False := by
+  cases hpc : s.spc <;> simp only [stepS, hpc] at h ⊢ <;> (try trivial)
+  case waitGet dl => split at h <;> simp_all
+  case got m => cases m <;> simp at h
+  all_goals (split at h <;> (try split at h) <;> simp_all)
+
+/-- time passes only while the sender is blocked, and not beyond its deadline -/
+theorem tick_sender (P : Params) (s s' : St) (d : Nat) (o : Option Obs)
+    (hs : step P s (.tick d) = some (s', o)) :
+    s' = { s with now := s.now + d } ∧
+    match s.spc with
+    | .waitGet dl => s.queue = [] ∧ s.now + d ≤ dl
+    | .sleeping u => s.now + d ≤ u
+    | .lockWait _ _ => s.lock ≠ none
+    | .notStarted => True
+    | .done => True
+    | .dead => True
+    | _ => False := by
+  obtain ⟨h1, hS, hdl⟩ := tick_elim P s s' d o hs
+  refine ⟨h1, ?_⟩
+  have hn := stepS_none P s hS
+  cases hpc : s.spc <;> simp only [hpc] at hn ⊢ <;> try trivial
+  · rename_i dl
+    have := hdl dl (by simp [deadlines, hpc])
+    exact ⟨hn.1, by omega⟩
+  · rename_i u
+    have := hdl u (by simp [deadlines, hpc])
+    omega
+
+def lastTxOf (w : List (Nat × String × Option Nat)) (m : Nat) : Nat :=
+  match w.getLast? with
+  | some e => e.1
+  | none => m
+
+theorem lastTx_eq (s : St) : lastTx s = lastTxOf s.wire s.madeAt := rfl
+@[simp] theorem lastTxOf_nil (m : Nat) : lastTxOf [] m = m := rfl
+@[simp] theorem lastTxOf_concat (w : List (Nat × String × Option Nat)) (e : Nat × String × Option Nat) (m : Nat) :
+    lastTxOf (w ++ [e]) m = e.1 := by simp [lastTxOf]
+
+/-- the timed invariant, as a function of the sender's program counter -/
+def gapB (P : Params) (pc : SPc) (q : List Item) (now lt : Nat) : Prop :=
+  match pc with
+  | .waitGet dl => (q ≠ [] ∧ now ≤ lt + P.spacing + P.kaInterval) ∨ (dl ≤ lt + P.spacing + P.kaInterval ∧ now ≤ dl)
+  | .timedOut => now ≤ lt + P.spacing + P.kaInterval
+  | .got _ => now ≤ lt + P.spacing + P.kaInterval
+  | .logging _ _ => now ≤ lt + P.spacing + P.kaInterval
+  | .lockWait _ _ => now ≤ lt + P.spacing + P.kaInterval
+  | .writing _ _ => now ≤ lt + P.spacing + P.kaInterval
+  | .unlock => now = lt
+  | .sleeping u => u = lt + P.spacing ∧ now ≤ u
+  | _ => True
+
+theorem gapB_enqueue (P : Params) (pc : SPc) (q : List Item) (x : Item) (now lt : Nat)
+    (h : gapB P pc q now lt) : gapB P pc (q ++ [x]) now lt := by
+  cases pc <;> simp_all [gapB] <;> omega
+
+def I4 (P : Params) (s : St) : Prop := Good s → gapB P s.spc s.queue s.now (lastTxOf s.wire s.madeAt)
+
+theorem I4_step (P : Params) (s s' : St) (l : Label) (o : Option Obs) (h1 : I1 s) (h3 : I3 s) (hi : I4 P s)
+    (hs : step P s l = some (s', o)) : I4 P s' := by
+  intro hg'
+  have hg := Good_back P s s' l o hs hg'
+  have hb := hi hg
+  unfold Good at hg hg'
+  unfold I1 at h1
+  have hlock := h3 hg.2.1
+  clear hi h3
+  cases l
+  case tick d =>
+    obtain ⟨rfl, ht⟩ := tick_sender P s _ d o hs
+    clear hs
+    cases hpc : s.spc <;> simp only [hpc] at ht hb hlock ⊢ <;> simp_all [gapB]
+  all_goals simp only [step] at hs
+  case s =>
+    l4_split_s hs <;> simp_all [gapB, enqueue]
+    all_goals first | omega | (right; omega)
+  case r =>
+    l4_split_r hs <;> simp_all [enqueue]
+    all_goals first | exact gapB_enqueue _ _ _ _ _ _ hb | (simp [gapB])
+  case u t =>
+    l4_split_u hs <;> simp_all
+    all_goals first | exact gapB_enqueue _ _ _ _ _ _ hb
+  all_goals l4_split_other hs <;> simp_all
+
+/-- all structural and timed invariants together -/
+def GapInv (P : Params) (s : St) : Prop := I1 s ∧ I2 s ∧ I3 s ∧ I4 P s
+
+theorem GapInv_reachable (P : Params) (s : St) (h : Reachable P s) : GapInv P s := by
+  refine reachable_induction P (GapInv P) ?_ ?_ s h
+  · refine ⟨by simp [I1], by simp [I2, upcOf, lookup], by simp [I3], ?_⟩
+    intro _; simp [gapB]
+  · intro s s' l o ⟨h1, h2, h3, h4⟩ hs
+    exact ⟨I1_step P s s' l o h1 hs, I2_step P s s' l o h2 hs, I3_step P s s' l o h1 h2 h3 hs,
+      I4_step P s s' l o h1 h3 h4 hs⟩
+
+/-- **gap**: while the connection is up and healthy, the time since the last transmission is at most one
+    command spacing plus the keep-alive interval -/
+theorem gap_inv (P : Params) (s : St) (h : Reachable P s)
+    (hup : s.spc ≠ .notStarted ∧ s.spc ≠ .done ∧ s.spc ≠ .dead ∧ lossBegun s.rpc = false ∧
+      s.closeStarted = false ∧ s.writeFault = false ∧ s.portOpen = true) :
+    s.now ≤ lastTx s + P.spacing + P.kaInterval := by
+  obtain ⟨_, _, _, h4⟩ := GapInv_reachable P s h
+  obtain ⟨hn, hd, hx, hl, hc, hw, hp⟩ := hup
+  have hb := h4 ⟨hl, hc, hw, hp⟩
+  rw [lastTx_eq]
+  cases hpc : s.spc <;> simp_all [gapB] <;> omega
+
+/-! ## the first two transmissions are probes -/
+
+/-- how many keep-alives `connection_made` has certainly put into the pipeline -/
+def need : RPc → Nat
+  | .notStarted => 0
+  | .made k => if k = 3 then 1 else 0
+  | _ => 2
+
+@[simp] theorem need_notStarted : need .notStarted = 0 := rfl
+@[simp] theorem need_made (k : Nat) : need (.made k) = if k = 3 then 1 else 0 := rfl
+@[simp] theorem need_setEvent : need .setEvent = 2 := rfl
+@[simp] theorem need_loopTest : need .loopTest = 2 := rfl
+@[simp] theorem need_reading (n : Nat) (d : Option Nat) : need (.reading n d) = 2 := rfl
+@[simp] theorem need_split : need .split = 2 := rfl
+@[simp] theorem need_line0 (l : String) : need (.line0 l) = 2 := rfl
+@[simp] theorem need_line1 (l : String) : need (.line1 l) = 2 := rfl
+@[simp] theorem need_line2 (l : String) (b : Bool) : need (.line2 l b) = 2 := rfl
+@[simp] theorem need_deliver (l : String) (td : List Nat) : need (.deliver l td) = 2 := rfl
+@[simp] theorem need_inCb (l : String) (cb : Nat) (td : List Nat) : need (.inCb l cb td) = 2 := rfl
+@[simp] theorem need_lost (k : Nat) : need (.lost k) = 2 := rfl
+@[simp] theorem need_lostJoin (d : Nat) : need (.lostJoin d) = 2 := rfl
+@[simp] theorem need_inDiscCb : need .inDiscCb = 2 := rfl
+@[simp] theorem need_done : need .done = 2 := rfl
+
+/-- callers see the protocol only after `connection_made` has queued both keep-alives -/
+def I5 (s : St) : Prop := (s.connMade = true → need s.rpc = 2) ∧ (s.connMade = false → s.published = false)
+
+theorem I5_step (P : Params) (s s' : St) (l : Label) (o : Option Obs) (hi : I5 s)
+    (hs : step P s l = some (s', o)) : I5 s' := by
+  unfold I5 at *
+  cases l <;> simp only [step] at hs
+  case s => l4_split_s hs <;> simp_all [enqueue]
+  case r => l4_split_r hs <;> simp_all [enqueue]
+  case u t => l4_split_u hs <;> simp_all
+  all_goals l4_split_other hs <;> simp_all
+
+theorem loss_back (P : Params) (s s' : St) (l : Label) (o : Option Obs)
+    (hs : step P s l = some (s', o)) (hg : lossBegun s'.rpc = false) : lossBegun s.rpc = false := by
+  cases l <;> simp only [step] at hs
+  case s => l4_split_s hs <;> simp_all [enqueue]
+  case r => l4_split_r hs <;> simp_all
+  case u t => l4_split_u hs <;> simp_all
+  all_goals l4_split_other hs <;> simp_all
+
+/-- is this transmission a keep-alive probe? -/
+def isP (t : String) (i : Option Nat) : Bool := decide (i = none ∧ t = probe)
+
+def itemP : Item → Bool
+  | .keepAlive => true
+  | .cmd _ _ => false
+  | .exit => false
+
+/-- the item the sender has taken out of the queue and not yet written -/
+def held : SPc → List Bool
+  | .got m => [itemP m]
+  | .logging t i => [isP t i]
+  | .lockWait t i => [isP t i]
+  | .writing t i => [isP t i]
+  | _ => []
+
+@[simp] theorem held_notStarted : held .notStarted = [] := rfl
+@[simp] theorem held_waitGet (d : Nat) : held (.waitGet d) = [] := rfl
+@[simp] theorem held_timedOut : held .timedOut = [] := rfl
+@[simp] theorem held_got (m : Item) : held (.got m) = [itemP m] := rfl
+@[simp] theorem held_logging (t : String) (i : Option Nat) : held (.logging t i) = [isP t i] := rfl
+@[simp] theorem held_lockWait (t : String) (i : Option Nat) : held (.lockWait t i) = [isP t i] := rfl
+@[simp] theorem held_writing (t : String) (i : Option Nat) : held (.writing t i) = [isP t i] := rfl
+@[simp] theorem held_unlock : held .unlock = [] := rfl
+@[simp] theorem held_sleeping (u : Nat) : held (.sleeping u) = [] := rfl
+@[simp] theorem held_done : held .done = [] := rfl
+@[simp] theorem held_dead : held .dead = [] := rfl
+@[simp] theorem itemP_keepAlive : itemP .keepAlive = true := rfl
+@[simp] theorem itemP_cmd (i : Nat) (t : String) : itemP (.cmd i t) = false := rfl
+@[simp] theorem itemP_exit : itemP .exit = false := rfl
+@[simp] theorem isP_probe : isP probe none = true := by simp [isP]
+@[simp] theorem isP_some (t : String) (i : Nat) : isP t (some i) = false := by simp [isP]
+
+/-- everything written, held by the sender, or queued, in transmission order: is it a probe? -/
+def pipeOf (w : List (Nat × String × Option Nat)) (pc : SPc) (q : List Item) : List Bool :=
+  w.map (fun e => isP e.2.1 e.2.2) ++ (held pc ++ q.map itemP)
+
+def T2 (l : List Bool) : Prop := ∀ b ∈ l.take 2, b = true
+
+theorem T2_append (l : List Bool) (x : Bool) (h : T2 l) (hx : 2 ≤ l.length ∨ x = true) : T2 (l ++ [x]) := by
+  intro b hb
+  rw [List.take_append, List.mem_append] at hb
+  rcases hb with hb | hb
+  · exact h b hb
+  · rcases hx with hx | hx
+    · have : 2 - l.length = 0 := by omega
+      simp [this] at hb
+    · have := List.mem_of_mem_take hb
+      simp at this; rw [this, hx]
+
+def pipeInv (w : List (Nat × String × Option Nat)) (pc : SPc) (q : List Item) (n : Nat) : Prop :=
+  T2 (pipeOf w pc q) ∧ n ≤ (pipeOf w pc q).length
+
+theorem pipeInv_enqueue (w : List (Nat × String × Option Nat)) (pc : SPc) (q : List Item) (x : Item) (n n' : Nat)
+    (h : pipeInv w pc q n) (hx : n = 2 ∨ itemP x = true) (hn : n' ≤ n + 1) : pipeInv w pc (q ++ [x]) n' := by
+  have e : pipeOf w pc (q ++ [x]) = pipeOf w pc q ++ [itemP x] := by simp [pipeOf]
+  unfold pipeInv at *
+  rw [e]
+  refine ⟨T2_append _ _ h.1 ?_, ?_⟩
+  · rcases hx with hx | hx
+    · left; omega
+    · right; exact hx
+  · simp; omega
+
+def W2 (w : List (Nat × String × Option Nat)) : Prop := ∀ e ∈ w.take 2, isP e.2.1 e.2.2 = true
+
+theorem pipeInv_wire (w : List (Nat × String × Option Nat)) (pc : SPc) (q : List Item) (n : Nat)
+    (h : pipeInv w pc q n) : W2 w := by
+  intro e he
+  apply h.1
+  unfold pipeOf
+  rw [List.take_append, List.mem_append]
+  left
+  rw [← List.map_take]
+  exact List.mem_map_of_mem he
+
+theorem pipeInv_timedOut (w : List (Nat × String × Option Nat)) (q : List Item) (n d : Nat)
+    (h : pipeInv w .timedOut q n) : pipeInv w (.waitGet d) (q ++ [.keepAlive]) n :=
+  pipeInv_enqueue w (.waitGet d) q .keepAlive n n (by simpa [pipeInv, pipeOf] using h) (Or.inr rfl) (Nat.le_succ n)
+
+theorem pipeInv_write (w : List (Nat × String × Option Nat)) (q : List Item) (n now : Nat) (t : String) (i : Option Nat)
+    (h : pipeInv w (.writing t i) q n) : pipeInv (w ++ [(now, t, i)]) .unlock q n := by
+  simpa [pipeInv, pipeOf] using h
+
+/-- while the reader has not begun `connection_lost`: the first two elements of the pipeline are probes -/
+def I6 (s : St) : Prop :=
+  lossBegun s.rpc = false →
+    W2 s.wire ∧
+    ((s.spc ≠ .notStarted ∧ s.spc ≠ .done ∧ s.spc ≠ .dead) → pipeInv s.wire s.spc s.queue (need s.rpc))
+
+theorem I6_step (P : Params) (s s' : St) (l : Label) (o : Option Obs) (h1 : I1 s) (h5 : I5 s) (hi : I6 s)
+    (hs : step P s l = some (s', o)) : I6 s' := by
+  intro hl'
+  have hl := loss_back P s s' l o hs hl'
+  obtain ⟨hw, hp⟩ := hi hl
+  unfold I1 at h1
+  unfold I5 at h5
+  clear hi
+  cases l <;> simp only [step] at hs
+  case s =>
+    l4_split_s hs <;> simp_all [enqueue]
+    all_goals first
+      | exact hw
+      | (simpa [pipeInv, pipeOf] using hp)
+      | exact pipeInv_timedOut _ _ _ _ hp
+      | exact ⟨pipeInv_wire _ _ _ _ (pipeInv_write _ _ _ _ _ _ hp), pipeInv_write _ _ _ _ _ _ hp⟩
+  case r =>
+    l4_split_r hs <;> simp_all [enqueue]
+    · simp [pipeInv, pipeOf, T2]
+    · intro a b c; exact pipeInv_enqueue _ _ _ _ _ _ (hp a b c) (Or.inr rfl) (Nat.le_refl _)
+    · intro a b c; exact pipeInv_enqueue _ _ _ _ _ _ (hp a b c) (Or.inr rfl) (Nat.le_refl _)
+  case u t =>
+    l4_split_u hs <;> simp_all
+    intro a b c; exact pipeInv_enqueue _ _ _ _ _ _ (hp a b c) (Or.inl rfl) (Nat.le_succ _)
+  all_goals l4_split_other hs <;> simp_all
+
+def ProbeInv (s : St) : Prop := I1 s ∧ I5 s ∧ I6 s
+
+theorem ProbeInv_reachable (P : Params) (s : St) (h : Reachable P s) : ProbeInv s := by
+  refine reachable_induction P ProbeInv ?_ ?_ s h
+  · refine ⟨by simp [I1], by simp [I5], ?_⟩
+    intro _; simp [W2]
+  · intro s s' l o ⟨h1, h5, h6⟩ hs
+    exact ⟨I1_step P s s' l o h1 hs, I5_step P s s' l o h5 hs, I6_step P s s' l o h1 h5 h6 hs⟩
+
+/-- **two probes first**: as long as the reader has not begun `connection_lost` (whose drain loop may throw the
+    queued keep-alives away), the first two transmissions of a connection are keep-alive probes -/
+theorem first_two_probes (P : Params) (s : St) (h : Reachable P s) (hl : lossBegun s.rpc = false) :
+    ∀ e ∈ s.wire.take 2, e.2.2 = none ∧ e.2.1 = probe := by
+  obtain ⟨_, _, h6⟩ := ProbeInv_reachable P s h
+  intro e he
+  have := (h6 hl).1 e he
+  simpa [isP] using this
+
+end Ynca.L4.C12L
